@@ -3,11 +3,13 @@
 # Applies a seeded change to /repo, runs the quick checks, and always reverts.
 export GOFLAGS=-mod=mod GOPROXY=off GOSUMDB=off GOTOOLCHAIN=local
 patch=$1; budget=$2; shift 2
-cd /repo || exit 2
-if [ -n "$(git status --porcelain)" ]; then echo "/repo not clean"; exit 2; fi
+# VSIM_REPO / VSIM_VERIF: run against snapshots (vp run --with-repo) instead of /repo and /verif
+REPO=${VSIM_REPO:-/repo}; VERIF=${VSIM_VERIF:-/verif}
+cd $REPO || exit 2
+if [ -n "$(git status --porcelain)" ]; then echo "$REPO not clean"; exit 2; fi
 git apply "$patch" || { echo "patch does not apply"; exit 2; }
-trap 'git -C /repo checkout -- . ; git -C /repo clean -fdq' EXIT
-cd /verif
+trap 'git -C $REPO checkout -- . ; git -C $REPO clean -fdq' EXIT
+cd $VERIF
 for p in "$@"; do
   VERIF_BUDGET_S=$budget ./bin/vsim check $p > /tmp/try_$p.log 2>&1
   code=$?
